@@ -416,6 +416,13 @@ class _C14Base(BytesMixin, ZListMixin, UnitsExecutor):
                 return [(st, VBool(z3.Or([self.bytes_prefix_eq(item, self.const_bytes(x), exact=True) for x in items] + [z3.BoolVal(False)])))]
         return super().contains(st, container, item, node)
 
+    def b_isinstance(self, st, args, kwargs, node):
+        if args and self.is_zlist(st, args[0]):
+            t = args[1]
+            types = [x.name for x in (t.items if isinstance(t, VTuple) else [t]) if isinstance(x, VType)]
+            return [(st, VBool("list" in types))]
+        return super().b_isinstance(st, args, kwargs, node)
+
     # ---- zlists ----
     def truth(self, st, v):
         if self.is_zlist(st, v):
